@@ -6,7 +6,7 @@
 /// Check for `assertion`: ""cell value equals what the record stores""
 
 #[test]
-fn kani_concrete_playback_c03_q_cell_rk_int_12561144239572862869() {
+fn kani_concrete_playback_c03_q_cell_rk_int_8770804431058185960() {
     let concrete_vals: Vec<Vec<u8>> = vec![
         // 255
         vec![255],
@@ -32,38 +32,38 @@ fn kani_concrete_playback_c03_q_cell_rk_int_12561144239572862869() {
         vec![255],
         // 255
         vec![255],
+        // 0
+        vec![0],
+        // 0
+        vec![0],
         // 1
         vec![1],
-        // 0
-        vec![0],
-        // 0
-        vec![0],
         // 255
         vec![255],
-        // 2
-        vec![2],
-        // 0
-        vec![0],
-        // 0
-        vec![0],
-        // 0
-        vec![0],
+        // 50
+        vec![50],
+        // 252
+        vec![252],
+        // 246
+        vec![246],
+        // 255
+        vec![255],
         // 1048575
         vec![255, 255, 15, 0],
-        // 2
-        vec![2],
-        // 2
-        vec![2],
-        // 2
-        vec![2],
-        // 0ul
-        vec![0, 0, 0, 0, 0, 0, 0, 0],
-        // 0ul
-        vec![0, 0, 0, 0, 0, 0, 0, 0],
-        // 0ul
-        vec![0, 0, 0, 0, 0, 0, 0, 0],
         // 1
         vec![1],
+        // 0
+        vec![0],
+        // 0
+        vec![0],
+        // 0ul
+        vec![0, 0, 0, 0, 0, 0, 0, 0],
+        // 1ul
+        vec![1, 0, 0, 0, 0, 0, 0, 0],
+        // 1ul
+        vec![1, 0, 0, 0, 0, 0, 0, 0],
+        // 0
+        vec![0],
     ];
     kani::concrete_playback_run(concrete_vals, c03_q_cell_rk_int);
 }
@@ -73,7 +73,7 @@ fn kani_concrete_playback_c03_q_cell_rk_int_12561144239572862869() {
 /// Check for `cover`: "end"
 
 #[test]
-fn kani_concrete_playback_c03_q_cell_rk_int_13435753037177148702() {
+fn kani_concrete_playback_c03_q_cell_rk_int_8748104923295579714() {
     let concrete_vals: Vec<Vec<u8>> = vec![
         // 255
         vec![255],
@@ -99,38 +99,38 @@ fn kani_concrete_playback_c03_q_cell_rk_int_13435753037177148702() {
         vec![255],
         // 255
         vec![255],
-        // 3
-        vec![3],
+        // 0
+        vec![0],
         // 0
         vec![0],
         // 0
         vec![0],
         // 255
         vec![255],
-        // 10
-        vec![10],
-        // 60
-        vec![60],
-        // 118
-        vec![118],
-        // 91
-        vec![91],
+        // 50
+        vec![50],
+        // 252
+        vec![252],
+        // 246
+        vec![246],
+        // 255
+        vec![255],
         // 1048575
         vec![255, 255, 15, 0],
-        // 2
-        vec![2],
-        // 2
-        vec![2],
-        // 2
-        vec![2],
-        // 1ul
-        vec![1, 0, 0, 0, 0, 0, 0, 0],
-        // 1ul
-        vec![1, 0, 0, 0, 0, 0, 0, 0],
-        // 2ul
-        vec![2, 0, 0, 0, 0, 0, 0, 0],
         // 1
         vec![1],
+        // 0
+        vec![0],
+        // 0
+        vec![0],
+        // 0ul
+        vec![0, 0, 0, 0, 0, 0, 0, 0],
+        // 1ul
+        vec![1, 0, 0, 0, 0, 0, 0, 0],
+        // 1ul
+        vec![1, 0, 0, 0, 0, 0, 0, 0],
+        // 0
+        vec![0],
     ];
     kani::concrete_playback_run(concrete_vals, c03_q_cell_rk_int);
 }
